@@ -162,6 +162,38 @@ ValidExact(c) ==
     /\ DOMAIN c.p = 1..c.R /\ IsPerm(c.p, c.R) /\ c.p \in ExactPerms(c.R)
     /\ c = ExactCfg(c.R, c.M, c.a, c.b, c.p, c.s)
 
+\* ---- exact zeros.  A cosine with a zero column is undefined: the documented behaviour of correlation_index
+\* ("Column norms must be non-zero"), congruence_coefficient ("Columns of all matrices should have nonzero l2 norm")
+\* and hence cp_permute_factors is a ValueError -- for exactly the matrices that get normalised: the stacked matrix for
+\* method "stacked", every mode for the other methods and for the congruence.  A zero ROW is harmless.
+\*   z = "onemode": component R of the second set is zero in mode M only;  "allmodes": in every mode;
+\*   z = "row": a zero row is appended to mode M of both sets (cosines unchanged).
+HasZeroCol(Mx) == \E j \in 1..NCols(Mx) : \A i \in 1..NRows(Mx) : Mx[i][j] = 0
+ZeroOutCol(Mx, j0) == [i \in 1..NRows(Mx) |-> [j \in 1..NCols(Mx) |-> IF j = j0 THEN 0 ELSE Mx[i][j]]]
+AppendZeroRow(Mx) == [i \in 1..(NRows(Mx) + 1) |-> IF i <= NRows(Mx) THEN Mx[i] ELSE [j \in 1..NCols(Mx) |-> 0]]
+ZeroKinds == {"onemode", "allmodes", "row"}
+ZeroA(R, M, z) == [m \in 1..M |-> IF z = "row" /\ m = M THEN AppendZeroRow(FacA(R, M, 0)[m]) ELSE FacA(R, M, 0)[m]]
+ZeroB(R, M, b, p, z) ==
+    [m \in 1..M |-> LET B0 == FacB(R, M, b, p, 0)[m] IN
+        CASE z = "row"      -> IF m = M THEN AppendZeroRow(B0) ELSE B0
+          [] z = "onemode"  -> IF m = M THEN ZeroOutCol(B0, R) ELSE B0
+          [] z = "allmodes" -> ZeroOutCol(B0, R)]
+ZeroCfg(R, M, b, p, z) ==
+    [kind |-> "zeros", R |-> R, M |-> M, a |-> 0, b |-> b, p |-> p, s |-> 0, z |-> z,
+     A |-> ZeroA(R, M, z), B |-> ZeroB(R, M, b, p, z), w |-> WeightsB(R)]
+ValidZeros(c) == /\ c.R \in 1..3 /\ c.M \in 1..3 /\ c.b \in {0, 1} /\ c.z \in ZeroKinds
+                 /\ DOMAIN c.p = 1..c.R /\ IsPerm(c.p, c.R)
+                 /\ c = ZeroCfg(c.R, c.M, c.b, c.p, c.z)
+\* which calls must be rejected
+MustRejectStacked(c) == HasZeroCol(StackRows(c.B, c.M))
+MustRejectPerMode(c) == \E m \in 1..c.M : HasZeroCol(c.B[m])
+ZerosOK(c) ==
+    /\ \A m \in 1..c.M : ~HasZeroCol(c.A[m])
+    /\ (c.z = "row" => /\ ~MustRejectPerMode(c) /\ ~MustRejectStacked(c)
+                        /\ CongL(c.A, c.B, FALSE) = CongL(FacA(c.R, c.M, 0), FacB(c.R, c.M, c.b, c.p, 0), FALSE))
+    /\ (c.z = "allmodes" => MustRejectPerMode(c) /\ MustRejectStacked(c))
+    /\ (c.z = "onemode" => MustRejectPerMode(c) /\ (MustRejectStacked(c) = (c.M = 1)))
+
 \* theorems about the specification on one exact configuration
 ExTop(c) == c.R * Pow(L, c.M)
 ExB0(c) == FacB(c.R, c.M, c.b, IdPerm(c.R), 0)          \* the second set before permutation and rescaling
@@ -264,10 +296,11 @@ OrthFams == << << <<1,2,2>>, <<2,-2,1>>, <<2,1,-2>> >>,
                << <<1,0,0>>, <<0,1,0>>, <<0,0,1>> >>,
                << <<3,4,0>>, <<-4,3,0>>, <<0,0,5>> >> >>
 LevScales == <<1, -2, 3, -1>>
+\* index 0 = an all-zero column (legal: it only lowers the rank)
 LevMatrix(f, idxs, pad) ==
-    FromCols([j \in 1..Len(idxs) |-> ScaleVec(LevScales[j], OrthFams[f][idxs[j]]) \o [k \in 1..pad |-> 0]])
+    FromCols([j \in 1..Len(idxs) |-> (IF idxs[j] = 0 THEN <<0, 0, 0>> ELSE ScaleVec(LevScales[j], OrthFams[f][idxs[j]])) \o [k \in 1..pad |-> 0]])
 \* leverage_i = (1/rank) sum over used directions v of v[i]^2 / |v|^2 ; returned as numerators over L * rank
-LevRank(idxs) == Cardinality(SeqRange(idxs))
+LevRank(idxs) == Cardinality(SeqRange(idxs) \ {0})
 LevNum(f, idxs, pad, i) ==
     IF i > 3 THEN 0
     ELSE SumSeq([d \in 1..3 |-> IF d \in SeqRange(idxs)
@@ -275,7 +308,8 @@ LevNum(f, idxs, pad, i) ==
                                 ELSE 0])
 ValidLevExact(c) ==
     /\ c.f \in 1..Len(OrthFams) /\ c.pad \in {0, 2} /\ Len(c.idxs) \in 1..4
-    /\ \A j \in 1..Len(c.idxs) : c.idxs[j] \in 1..3
+    /\ \A j \in 1..Len(c.idxs) : c.idxs[j] \in 0..3
+    /\ LevRank(c.idxs) >= 1                      \* the zero matrix has no leverage scores
     /\ c.A = LevMatrix(c.f, c.idxs, c.pad)
 LevExactOK(c) ==
     /\ \A d1, d2 \in 1..3 : d1 # d2 => Dot(OrthFams[c.f][d1], OrthFams[c.f][d2]) = 0
@@ -298,6 +332,7 @@ Seeds == {[kind |-> "seed", fam |-> "exact", R |-> r, M |-> m, b |-> b, s |-> s,
          \cup {[kind |-> "seed", fam |-> "levexact", f |-> f, pad |-> pad] : f \in 1..Len(OrthFams), pad \in {0, 2}}
          \cup {[kind |-> "seed", fam |-> "metricdata", x |-> x] : x \in SeqsOver((-1)..1, 3)}
          \cup {[kind |-> "seed", fam |-> "lev"]}
+         \cup {[kind |-> "seed", fam |-> "zeros", R |-> r] : r \in 1..3}
 CfgsOf(sd) ==
     CASE sd.fam = "exact" ->
             {ExactCfg(sd.R, sd.M, 0, sd.b, p, sd.s) : p \in {pp \in ExactPerms(sd.R) : pp[1] = sd.f}}
@@ -313,7 +348,11 @@ CfgsOf(sd) ==
                 r \in {2, 3, 5, 9}, cl \in 1..4, fl \in LevFlavours, k \in 1..LevDraws}
       [] sd.fam = "levexact" ->
             {[kind |-> "levexact", f |-> sd.f, idxs |-> ix, pad |-> sd.pad, A |-> LevMatrix(sd.f, ix, sd.pad)] :
-                ix \in UNION {SeqsOver(1..3, n) : n \in 1..LevMaxCols}}
+                ix \in {x \in UNION {SeqsOver(0..3, n) : n \in 1..LevMaxCols} :
+                            LevRank(x) >= 1 /\ (0 \in SeqRange(x) => Len(x) < LevMaxCols)}}
+      [] sd.fam = "zeros" ->
+            {ZeroCfg(sd.R, m, b, p, z) : m \in 1..3, b \in {0, 1}, z \in ZeroKinds,
+                                         p \in {IdPerm(sd.R), [j \in 1..sd.R |-> (j % sd.R) + 1]}}
       [] sd.fam = "metricdata" ->      \* exhaustive small data for the theorems about the metric formulas
             {[kind |-> "metricdata", x |-> sd.x, y |-> y] : y \in SeqsOver({-2, 0, 1}, 3)}
 
@@ -326,6 +365,7 @@ SpecOK ==
       [] cfg.kind = "metric"     -> ValidMetric(cfg)
       [] cfg.kind = "lev"        -> ValidLev(cfg)
       [] cfg.kind = "levexact"   -> ValidLevExact(cfg) /\ LevExactOK(cfg)
+      [] cfg.kind = "zeros"      -> ValidZeros(cfg) /\ ZerosOK(cfg)
       [] cfg.kind = "metricdata" -> MetricDataOK(cfg.x, cfg.y)
       [] OTHER -> TRUE
 =============================================================================
